@@ -175,9 +175,15 @@ def main():
         for o in user_obl:
             cur_keys[okey(o)] = cur_keys.get(okey(o), 0) + 1
         failed = [o for o in r['obligations'] if o['status'] == 'FAILURE']
+        not_counted = set()
         unknown = [o for o in r['obligations'] if o['status'] not in ('SUCCESS', 'FAILURE')]
         if unknown:
-            undecided.append('%s: %d obligations have status %s (solver error / out of memory): undecided' % (g['name'], len(unknown), unknown[0]['status']))
+            msg = '%s: %d obligations have status %s (solver error / out of memory): undecided' % (g['name'], len(unknown), unknown[0]['status'])
+            if g.get('tier', 'quick') == 'thorough' and not failed:
+                unexplored.append(msg)
+                ge['status'] = 'unexplored: solver error / out of memory'
+                continue
+            undecided.append(msg)
         if exp is not None and not a.record:
             # contract-level obligations recorded on the unchanged tree must still be generated
             must = [k for k in exp['keys'] if exp['keys'][k].get('must')]
@@ -193,10 +199,12 @@ def main():
             if g.get('focus') and o['cls'] == 'assertion' and not any(_re.search(rx, o['desc']) for rx in g['focus']):
                 # group shared with another property: assertions outside this property's focus are decided (and reported) there
                 ge.setdefault('out_of_focus_failures', []).append(o['desc'][:120])
+                not_counted.add(id(o))
                 continue
             tagk = 'property=%s group=%s obligation=%s' % (prop, g['name'], k)
             if any(tagk == kn for kn in known):
                 known_hits.append(tagk)
+                not_counted.add(id(o))        # a listed finding is reported as such, it is neither discharged nor counted as an obligation of this run
                 continue
             if o['fn'].startswith(pipeline.LIB_PREFIXES) or o['cls'] == 'unwind':
                 undecided.append('%s: infrastructure obligation failed: %s %s' % (g['name'], o['id'], o['desc']))
@@ -207,6 +215,7 @@ def main():
             else:
                 violations.append((g, r, o)) if g.get('new_failures_are_violations') else \
                     undecided.append('%s: an obligation unknown on the unchanged tree failed: %s %s' % (g['name'], o['id'], o['desc']))
+        user_obl = [o for o in user_obl if id(o) not in not_counted]
         ok = [o for o in user_obl if o['status'] == 'SUCCESS']
         if g['cls'] == 'B':
             bounded_obl += len(user_obl)
